@@ -24,3 +24,37 @@ Theorem c14_dangling_qualifier_fixed :
   = ["ods.zz.a>ods.x.a"].
 Proof. vm_compute. reflexivity. Qed.
 Print Assumptions c14_dangling_qualifier_fixed.
+
+(** Table level, on the specification: analysing with default schema [ds] is analysing the explicitly qualified
+    statement ([qual_stmt]: every unqualified table name that is not a CTE reference is written ds.name). *)
+From SV Require Import Ast.Qualify Tree.Render Tree.LemmaA Tree.LemmaAProofs.
+
+Theorem c14_spec_default_is_qualification : forall ds s, ds <> "" ->
+  spec_reads "" (qual_stmt ds s) = spec_reads ds s /\ spec_writes "" (qual_stmt ds s) = spec_writes ds s.
+Proof. exact spec_default_is_qualification. Qed.
+Print Assumptions c14_spec_default_is_qualification.
+
+(** ... and, with Lemma A, on the tree model itself for the core fragment: the walker under default schema [ds] reports
+    for [s] what the walker without a default reports for the qualified statement, whatever the trivia. *)
+Theorem c14_default_is_qualification_on_core : forall n1 n2 e e0 s,
+  noise_ok n1 = true -> noise_ok n2 = true -> env_ok e = true -> env_ok e0 = true ->
+  e_cfg e <> "" -> e_cfg e0 = "" ->
+  stmt_ok s = true -> sshape s = true ->
+  stmt_ok (qual_stmt (e_cfg e) s) = true -> sshape (qual_stmt (e_cfg e) s) = true ->
+  stmt_reads (analyze e false (r_stmt n1 s)) = stmt_reads (analyze e0 false (r_stmt n2 (qual_stmt (e_cfg e) s))) /\
+  stmt_writes (analyze e false (r_stmt n1 s)) = stmt_writes (analyze e0 false (r_stmt n2 (qual_stmt (e_cfg e) s))).
+Proof.
+  intros n1 n2 e e0 s H1 H2 He He0 Hds H0 Hs Hq Hs' Hq'.
+  destruct (lemma_A_tables_restricted n1 e s H1 He Hs Hq) as [R1 W1].
+  destruct (lemma_A_tables_restricted n2 e0 _ H2 He0 Hs' Hq') as [R2 W2].
+  destruct (spec_default_is_qualification (e_cfg e) s Hds) as [SR SW].
+  rewrite R1, R2, W1, W2, H0, SR, SW. split; reflexivity.
+Qed.
+Print Assumptions c14_default_is_qualification_on_core.
+
+Example c14_on_core_nonvacuous :
+  let s := SInsert (None, "o") None (QSelect [IStar None] [RTable (None, "a") None; RDerived (QSelect [IStar None] [RTable (Some "x", "b") (Some "p")] false None) "d"] false None) in
+  let e := mk_env "ansi" "dw" "dw" {| p_truthy := false; p_cols := [] |} [] in
+  env_ok e && stmt_ok s && sshape s && stmt_ok (qual_stmt "dw" s) && sshape (qual_stmt "dw" s) = true
+  /\ stmt_reads (analyze e false (r_stmt [] s)) = ["dw.a"; "x.b"].
+Proof. split; vm_compute; reflexivity. Qed.
